@@ -691,7 +691,12 @@ def check(ctx):
     if not ctx.quick():
         dkw_cases += ["Binomial(12, 0.05)", "Poisson(1)", "Geometric(0.05)", "UniformInt(0, 1)", "Uniform(1/3, 1/2)", "Gaussian((-2), 10)"]
     dkw_report = []
-    for t in dkw_cases:
+    N_default = N
+    # large but legal rates (exp(-mu) underflows from mu = 746 on; the scan costs ~mu terms per value, hence the small N)
+    small = [("Poisson(746)", 80), ("Poisson(1000)", 60), ("Poisson(745)", 60), ("Binomial(1100, 0.999)", 60)] + \
+            ([("Poisson(2500)", 60), ("Poisson(800)", 400), ("Geometric(1/100000)", 300)] if not ctx.quick() else [])
+    for t, N in [(t_, N_default) for t_ in dkw_cases] + small:
+        eps = math.sqrt(math.log(2 / delta) / (2 * N))
         var = Var(R, t)
         seed = rng.randrange(10 ** 9)
         env = R.new_env()
